@@ -79,6 +79,10 @@ def run(tier):
         ex = ["--tensor-allocator", alloc]
         histories.append([st("multi_input", 1, "ethos-u55-128", extra=ex), st("multi_input", 2, "ethos-u55-128", extra=ex),
                           st("multi_input", 1, "ethos-u55-128", extra=ex), st("multi_input", 1, "ethos-u55-128", extra=ex)])
+    # networks whose first HillClimb placement is not optimal, so that the allocator's randomised search runs (most networks
+    # never draw a random number): state of a random generator carried from one compilation to the next shows only here
+    histories.append([st("branchy", 9), st("branchy", 11), st("branchy", 9), st("branchy", 25, entry="convert_bytes"), st("branchy", 11, entry="convert")])
+    histories.append([st("branchy", 25), st("branchy", 25), st("branchy", 9, entry="convert_bytes")])
     histories.append([st("multi_custom", 1), st("multi_custom", 2), st("multi_custom", 1, entry="convert_bytes")])
     histories.append([st("lut_heavy", 1), st("lut_heavy", 1)])
     histories.append([st("lut_heavy", 1), st("lut_heavy", 2), st("lut_heavy", 1), st("lut_heavy", 1, entry="convert"), st("lut_heavy", 1, entry="convert_bytes")])
@@ -170,6 +174,9 @@ def run(tier):
         "rule": "distinct (model, options, entry point, first-or-later position) and (model, hash seed) comparisons",
         "samples": [[(s["family"], s["seed"], s["entry"], s["args"]) for s in h] for h in histories[:3]],
         "solo_status": dict(collections.Counter(r.get("status") for r in ref.values())),
+        "steps_in_which_the_hillclimb_search_ran": sum(1 for rs in hist_res for r in rs if r.get("hillclimb_search_calls")),
+        "steps_that_followed_a_step_with_search": sum(1 for rs in hist_res for i, r in enumerate(rs)
+                                                      if r.get("hillclimb_search_calls") and any(q.get("hillclimb_search_calls") for q in rs[:i])),
     })
     vlib.proof_coverage(res, b, ["tools/hist_worker.py: histories run in one process per history; convert/convert_bytes are compared with "
                                  "main --accelerator-config ethos-u65-256 (their hard-coded configuration)"])
